@@ -61,6 +61,8 @@ type poolObs struct {
 	RoundsDone   int
 	LateLost      string
 	LateSubmitted int32
+	// APIPanic: Submit / Wait / Close panicked although the pool was used as documented
+	APIPanic string
 }
 
 // runPool executes the scenario. Must run inside a bubble.
@@ -130,7 +132,14 @@ func runPool(sc *PoolSc) *poolObs {
 			go func() {
 				defer subWG.Done()
 				for j := 0; j < k; j++ {
-					pool.Submit(body(ri, first+j, sc.Gated))
+					if p, v := recoverCall(func() { pool.Submit(body(ri, first+j, sc.Gated)) }); p {
+						mu.Lock()
+						if obs.APIPanic == "" {
+							obs.APIPanic = fmt.Sprintf("round %d: Submit panicked: %v", ri, v)
+						}
+						mu.Unlock()
+						return
+					}
 				}
 			}()
 		}
@@ -139,12 +148,18 @@ func runPool(sc *PoolSc) *poolObs {
 		go func() {
 			subWG.Wait() // Wait is only legal once the round's Submit calls have returned
 			atomic.StoreInt32(&waiting, 1)
-			pool.Wait()
+			if p, v := recoverCall(pool.Wait); p {
+				mu.Lock()
+				if obs.APIPanic == "" {
+					obs.APIPanic = fmt.Sprintf("round %d: Wait panicked: %v", ri, v)
+				}
+				mu.Unlock()
+			}
 			close(waitReturned)
 		}()
 		roundEnd := roundFirst + roundTasks
 		lateStarted := false
-		qpRetried := false
+		qpRetried := 0
 		for {
 			synctest.Wait()
 			returned := false
@@ -175,12 +190,12 @@ func runPool(sc *PoolSc) *poolObs {
 				if want > w {
 					want = w
 				}
-				if np != want && !qpRetried {
-					// The implementation may be parked on a timer of its own (workers started lazily,
-					// admission by polling): let a generous second of virtual time pass - nothing
-					// the harness holds is released meanwhile - and look again.
-					qpRetried = true
-					time.Sleep(time.Second)
+				if np != want && qpRetried < 8 {
+					// The implementation may be parked on a timer of its own (workers started lazily
+					// or one by one, admission by polling): let virtual time pass - 1 s, 2 s, ... 128 s,
+					// nothing the harness holds is released meanwhile - and look again.
+					time.Sleep(time.Second << qpRetried)
+					qpRetried++
 					continue
 				}
 				if np != want {
@@ -229,7 +244,7 @@ func runPool(sc *PoolSc) *poolObs {
 			parkedL = append(parkedL[:choice], parkedL[choice+1:]...)
 			mu.Unlock()
 			obs.Releases++
-			qpRetried = false
+			qpRetried = 0
 			close(p.gate)
 		}
 		// after Wait: the waiter reads the plain writes of every task submitted before it
@@ -242,8 +257,13 @@ func runPool(sc *PoolSc) *poolObs {
 	}
 	// late tasks may still be queued when the last Wait returned early in a broken pool; in a
 	// correct one Wait covers them too
-	pool.Wait()
-	pool.Close()
+	if p, v := recoverCall(func() { pool.Wait(); pool.Close() }); p && obs.APIPanic == "" {
+		obs.APIPanic = fmt.Sprintf("final Wait/Close panicked: %v", v)
+	}
+	// "terminate after Close" is not "be gone when Close returns": workers that poll or notice the
+	// shutdown a little later get a virtual minute (the clock stops when this function returns)
+	time.Sleep(time.Minute)
+	synctest.Wait()
 	// late tasks whose Submit returned must have run exactly once (ids are handed out in order,
 	// so the first LateSubmitted ids of each late batch are the submitted ones; a batch that was
 	// told to stop may have fewer)
@@ -270,6 +290,9 @@ func judgePool(prop string, sc *PoolSc, obs *poolObs, fail string) Verdict {
 		return inconclusive("pool scenario produced no observation")
 	}
 	if c12 {
+		if obs.APIPanic != "" {
+			return bad(prop+":api-panic", "%s (size %d, %d rounds)", obs.APIPanic, sc.Size, len(sc.Rounds))
+		}
 		if obs.WaitEarly != "" {
 			return bad(prop+":wait-early", "%s", obs.WaitEarly)
 		}
